@@ -57,9 +57,10 @@ def run_case(cs):
     state = os.path.join(d, "state")
     work = os.path.join(d, "work")
     # now and then a folder name that just fits into a manifest name (NNNN_<folder>_<18 chars>.mhl of at most 255 bytes)
-    long_names = rng.random() < 0.12
-    rname = "root" if not long_names or rng.random() < 0.4 else "r" * rng.randint(223, 227)
-    if not long_names and rng.random() < 0.12:
+    idx = int(cs.seed_str.rsplit(":", 1)[1])
+    long_names = rng.random() < 0.12 or idx in (0, 1)  # (the first cases of every run carry the rare folder name classes)
+    rname = "root" if not long_names or (rng.random() < 0.4 and idx != 0) else "r" * rng.randint(223, 227)
+    if not long_names and (rng.random() < 0.12 or idx == 2):
         # the extension of the manifests inside the folder name
         rname = rng.choice(["A001.mhl_offload", "root.mhl", "x.mhl.bak"])
         cs.count("scenarios_with_mhl_in_folder_name")
@@ -68,7 +69,7 @@ def run_case(cs):
     nested = rng.choice([[], [], ["K"], ["K", "M"], ["K", "K/L"]])
     if rng.random() < 0.08:
         nested = rng.choice([["K.mhl_copy"], ["K.mhl_copy", "M"]])
-    if long_names and (rname == "root" or rng.random() < 0.3):
+    if long_names and (rname == "root" or rng.random() < 0.3 or idx == 1):
         kname = "K" * rng.randint(223, 227)
         nested = rng.choice([[kname], [kname, "M"]])
     if long_names:
@@ -78,7 +79,7 @@ def run_case(cs):
         for i in range(rng.randint(1, 2)):
             tree[(s + "/" if s else "") + "f%d.bin" % i] = rng.randbytes(rng.randint(0, 12))
     prior = rng.choice([0, 0, 1, 2, 5])
-    if rng.random() < 0.1:
+    if rng.random() < 0.1 or idx == 3:
         prior = rng.randint(32, 36)  # a long-lived history
         cs.count("scenarios_with_32_or_more_generations")
     # build the committed state under the *work* path (so that paths are identical in every run), then move it to `state`
